@@ -132,7 +132,10 @@ def run_shard(ctx):
         if ctx.out_of_time():
             break
         r = rng.random()
-        phi = gens.synthetic_phase(rng, noise=(0.0 if r < .4 else float(rng.uniform(0, .3))), reversals=bool(r > .6))
+        phi = gens.synthetic_phase(rng, noise=(0.0 if r < .4 else float(rng.uniform(0, .3))), reversals=bool(r > .6),
+                                   ncycles=(int(rng.integers(100, 400)) if i % 40 == 7 else None))
+        if i % 40 == 11:
+            phi = np.tile(np.linspace(0.05, 6.2, int(rng.integers(6, 30))), int(rng.integers(3, 200)))    # exactly periodic
         st = float(gens.pick(rng, list(RSTEPS)))
         if rng.random() < .25:
             phi, _ = gens.relayout(rng, phi, 'strided')     # same values in a strided view
